@@ -25,7 +25,7 @@ ASSUMPTIONS = [
     "the shrink/grow branch and the sampled hyperparameter are read from the recorded torch.rand / torch.randperm variates "
     "seen by agilerl.algorithms.core.registry (if none are recorded the oracle accepts either branch and any configured name)",
     "expected value = dtype(min(max(own_old_value * factor, min), max)) evaluated in Python float arithmetic like the code; "
-    "factor pairs include both-below-one and both-above-one, ranges include negative ones (ent_coef / mean_noise)",
+    "factor pairs include both-below-one and both-above-one, ranges include negative ones (RainbowDQN v_min)",
     "learning-rate effect is read from param_groups of the optimizer objects the agent holds after the call",
 ]
 REQUIRED_COUNTERS = ["mutations_checked", "other_agents_unchanged_checks", "lr_group_checks", "variates_recorded"]
@@ -68,13 +68,17 @@ def cases(tier, seed):
                 # the quantifier says ARBITRARY shrink and grow factors and ranges
                 "factors": ["usual", "usual", "decay_only", "grow_only"][(i // 5) % 4],
                 "negative_range": bool((i // 3) % 3 == 0) or (algo in NEGATIVE_CAPABLE and i % 2 == 0),
+                # agents that have already learned (optimizer state exists) when the mutation arrives
+                "learn_first": bool((i // 2) % 2 == 0),
+                # several learning rates configured with the SAME value and range (e.g. parsed from one config entry)
+                "equal_lrs": bool(len(LR_NAMES[algo]) > 1 and (i // 4) % 2 == 0),
                 "seed": int(rng.integers(1 << 30)),
             }
         )
     return out
 
 
-NEGATIVE_CAPABLE = {"PPO": "ent_coef", "IPPO": "ent_coef"}  # a float attribute whose sign is free
+NEGATIVE_CAPABLE = {"RainbowDQN": "v_min"}  # a float hyperparameter that is legitimately negative
 
 
 def _factors(rng, style):
@@ -101,10 +105,16 @@ def _make_cfg(case, algo):
         sh, gr = _factors(rng, style)
         params[name] = RLParameter(min=lo, max=hi, shrink_factor=sh, grow_factor=gr)
         init[name] = float(rng.uniform(lo, hi))
+    shared_lr = None
     for lr in LR_NAMES[algo]:
         lo = float(10 ** rng.uniform(-5, -3.5))
         hi = float(lo * 10 ** rng.uniform(0.3, 1.5))
         v = float(rng.uniform(lo, hi))
+        if case.get("equal_lrs"):
+            if shared_lr is None:
+                shared_lr = (lo, hi, v)
+            # equal values but separate float objects, as after parsing a config file
+            lo, hi, v = (float(repr(x)) * 1.0 for x in shared_lr)
         if corner == "at_min":
             v = lo
         elif corner == "at_max":
@@ -159,14 +169,26 @@ class _TorchProxy:
         return getattr(self._real, name)
 
 
+def _expected_lr_attr(agent, cfg) -> str:
+    """Which learning-rate attribute an optimizer must follow, decided from WHAT it trains (documented constructor
+    semantics: critics use lr_critic, actors lr_actor, single-lr algorithms lr) - not from the registry's own
+    bookkeeping of lr names, which is part of what is being checked."""
+    from vf import zoo
+
+    a = zoo.unwrap(agent)
+    if hasattr(a, "lr_critic") and hasattr(a, "lr_actor"):
+        return "lr_critic" if any("critic" in str(n) for n in cfg.networks) else "lr_actor"
+    return "lr"
+
+
 def _group_lrs(agent, attr):
-    """lr of every param group of every optimizer registered with learning-rate attribute `attr`."""
+    """lr of every param group of every optimizer that must follow learning-rate attribute `attr`."""
     from vf import zoo
 
     a = zoo.unwrap(agent)
     out = []
     for cfg in a.registry.optimizers:
-        if cfg.lr != attr:
+        if _expected_lr_attr(agent, cfg) != attr:
             continue
         ow = getattr(a, cfg.name)
         opts = ow.optimizer if isinstance(ow.optimizer, list) else [ow.optimizer]
@@ -206,6 +228,7 @@ def _build_population(case, algo, cfg, init):
         extra = {}
         if algo == "RainbowDQN":
             extra = dict(num_atoms=11, v_min=-5.0, v_max=5.0)
+            extra = {k: v for k, v in extra.items() if k not in kw}
         if how == "create_population":
             try:
                 pop = _via_create_population(algo, o, a, cfg, init, n)
@@ -229,7 +252,7 @@ def _via_create_population(algo, o, a, cfg, init, n):
     INIT_HP = {
         "BATCH_SIZE": init.get("batch_size", 8), "LR": init.get("lr", 1e-3), "LR_ACTOR": init.get("lr_actor", 1e-3),
         "LR_CRITIC": init.get("lr_critic", 1e-3), "LEARN_STEP": init.get("learn_step", 2), "GAMMA": 0.99, "TAU": 0.01,
-        "DOUBLE": False, "N_STEP": 3, "NUM_ATOMS": 11, "V_MIN": -5.0, "V_MAX": 5.0, "BETA": 0.4, "PRIOR_EPS": 1e-6,
+        "DOUBLE": False, "N_STEP": 3, "NUM_ATOMS": 11, "V_MIN": init.get("v_min", -5.0), "V_MAX": 5.0, "BETA": 0.4, "PRIOR_EPS": 1e-6,
         "NOISE_STD": 0.5, "COMBINED_REWARD": False, "GAE_LAMBDA": 0.95, "ACTION_STD_INIT": 0.0, "CLIP_COEF": 0.2,
         "ENT_COEF": 0.01, "VF_COEF": 0.5, "MAX_GRAD_NORM": 0.5, "TARGET_KL": None, "UPDATE_EPOCHS": 1, "POLICY_FREQ": 2,
         "O_U_NOISE": True, "EXPL_NOISE": 0.1, "MEAN_NOISE": 0.0, "THETA": 0.15, "DT": 0.01, "LAMBDA": 1.0, "REG": 0.000625,
@@ -263,6 +286,16 @@ def run_case(case):
     changed_any = bound_or_lr = False
     m = agentops.make_mutations("rl_hp", seed=case["seed"] % 100000)
     for rnd in range(case["rounds"]):
+        if case.get("learn_first") and rnd in (0, 2):
+            try:
+                for ag in pop:
+                    zoo.learn(ag, batch_seed=case["seed"] % 4001 + rnd)
+                rec.hit("learn_steps_before_mutation", len(pop))
+            except CaseTimeout:
+                raise
+            except Exception as e:
+                rec.hit("learn_before_mutation_failed(info)")
+                rec.extra["learn_before_mutation_failed"] = f"{type(e).__name__}: {str(e)[:100]}"
         # the code mutates agents one after another inside one mutation() call; to attribute variates to agents the
         # population is mutated one agent per call (mutation([agent]) is exactly what mutation(pop) does per member)
         for k in range(len(pop)):
